@@ -222,6 +222,21 @@ CHECKS['C07'] = dict(
     technique='sidecar contracts (invariant components per phase) + own VC generator over the real AST with contract cuts and loop-invariant '
               'cuts + z3; AST call-graph scan; native replay of counter-models; native guard against vacuity')
 
+CHECKS['C12'] = dict(
+    category='other',
+    text='The property compares two runs (automatic showing / mucking / killing vs. everybody tabling his full hand), which no contract on '
+         'one call can state. What is machine-checked are the lemmas it follows from, each on the real function with abstract hands: (m1) '
+         'State.can_win_now(i) is true exactly when, on some board, for some hand type and some pot, player i holds a hand and no contender '
+         'shows a strictly better one; (m2) hands.from_game never gets weaker when a card is added to the hole or the board (real from_game '
+         'run twice on abstract cards); (m3) the default show/muck decision shows exactly when all-in or can_win_now, and in tournament mode '
+         'an accepted show at an all-in or final showdown tables every hole card; (m4) _begin_hand_killing marks exactly the live players '
+         'who cannot win now (can_win_now shown not to read the marks); (m5) removing a contender who does not hold the strongest hand '
+         'changes no winner and no share (lemma over the awarding rule). The composition to equal payoffs is a paper argument; twin runs '
+         'on random hands are a bounded stand-in, reported separately and never counted.',
+    design_ref='DESIGN.md section 4 (C12), section 8',
+    note='level other: premises proved (D/shape: n, hand types, boards as listed), composition on paper, B stand-in (twin runs).',
+    technique='sidecar contracts + own VC generator over the real AST + z3 (abstract hands) for the lemmas; paper composition; bounded twin-run stand-in')
+
 NOT_APPLICABLE = {
     'C20': 'regex-driven text importers against external site formats; no contract within reach expresses or decides it (DESIGN.md section 5)',
 }
